@@ -372,6 +372,62 @@ def fn_n3(items):
     return {'n': n, 'nt': nt, 'viol': viol}
 
 
+def fn_n3_tab(items):
+    """item = [budget, i]: i-th tableau of the N=3 BFS set (every rank, concrete tableaux): expectation of the
+    complete signed list (128) and of all 64 Paulis with phase i; pure tableaux: all 8 bit-string probabilities
+    and overlaps with every 29th tableau of the set."""
+    from . import c06
+    n = nt = 0
+    viol = []
+    N = 3
+    G = ref.all_g(N)
+    Gs = np.concatenate([G, G])
+    Ps = np.concatenate([np.zeros(len(G), dtype=np.int64), np.full(len(G), 2)])
+    for budget, i in items:
+        if budget not in c06._N3:
+            c06._N3[budget] = c06._n3_states(budget, 0)
+        S = c06._N3[budget]
+        gs0, ps0, r0 = S[i]
+        rho0 = stab.rho_of(gs0, ps0, r0)
+        st = lib.ST(gs0, ps0, r0)
+        kind = 'pure' if r0 == 0 else 'mixed-r%d' % r0
+        want = np.array([tr(rho0, g, p) for g, p in zip(Gs, Ps)])
+        xs = np.asarray(st.expect(lib.PL(Gs, Ps)))
+        n += len(Gs)
+        nt += int((np.abs(want) > 0.5).sum())
+        if not np.allclose(xs, want, atol=1e-9):
+            bad = int(np.argwhere(~np.isclose(xs, want, atol=1e-9))[0][0])
+            viol.append(V('C07/N3tab/list/%s' % kind, [budget, i], 'expect([%s]) = %s on %s, Tr(rho P) = %s' % (ref.g_to_str(Gs[bad], Ps[bad]), xs[bad], stab.describe(gs0, ps0, r0), want[bad].real)))
+        for g in G:
+            v = complex(st.expect(lib.P(g, 1)))
+            n += 1
+            if abs(v - tr(rho0, g, 1)) > 1e-9:
+                viol.append(V('C07/N3tab/pauli/imaginary-phase/%s' % kind, [budget, i], 'expect(%s) = %s, true %s' % (ref.g_to_str(g, 1), v, tr(rho0, g, 1))))
+                break
+        if not same_state(st, (gs0, ps0, r0)):
+            viol.append(V('C07/N3tab/receiver-modified', [budget, i], 'expect changed its receiver'))
+        if r0 == 0:
+            tot = 0.0
+            for bits in itertools.product((0, 1), repeat=N):
+                b = int(''.join(str(x) for x in bits), 2)
+                v = float(st.get_prob(np.array(bits, dtype=lib.INT)))
+                tot += v
+                n += 1
+                if abs(v - rho0[b, b].real) > 1e-9:
+                    viol.append(V('C07/N3tab/get_prob', [budget, i], 'get_prob(%s) = %s on %s, <b|rho|b> = %s' % (bits, v, stab.describe(gs0, ps0, r0), rho0[b, b].real)))
+            if abs(tot - 1) > 1e-9:
+                viol.append(V('C07/N3tab/get_prob/sum', [budget, i], 'probabilities sum to %s' % tot))
+            for j in range(i % 29, len(S), 29):
+                ga, pa, ra = S[j]
+                v = float(lib.ST(gs0, ps0, r0).expect(lib.ST(ga, pa, ra)))
+                w = float(np.trace(rho0 @ stab.rho_of(ga, pa, ra)).real)
+                n += 1
+                nt += int(w > 0)
+                if abs(v - w) > 1e-9:
+                    viol.append(V('C07/N3tab/overlap/arg-r%d' % ra, [budget, i], 'overlap of %s with %s = %s, Tr(rho sigma) = %s' % (stab.describe(gs0, ps0, r0), stab.describe(ga, pa, ra), v, w)))
+    return {'n': n, 'nt': nt, 'viol': viol}
+
+
 def legs(tier):
     out = []
     for N in (1, 2):
@@ -400,6 +456,9 @@ def legs(tier):
     out.append(Leg('live_histories', fn_live, litems, chunk=2,
                    bound='query round -> one in-place operation (each of the %d C05 menu operations, every coin branch) -> query round on the same live object vs a fresh object built from its arrays; N=1 every 3rd tableau, N=2 %s' % (
                        msz, 'one tableau per density matrix' if tier != 'quick' else 'every 3rd density matrix')))
+    nb3 = 402 if tier == 'quick' else 4002
+    out.append(Leg('expect_N3_tableaux', fn_n3_tab, [[nb3, i] for i in range(nb3)], chunk=8, exhaustive=False, supplementary=True,
+                   bound='%d N=3 tableaux (BFS from six start states of every rank, by concrete tableau): complete signed list, imaginary-phase Paulis; pure ones: all bit strings and overlaps with every 29th tableau of the set' % nb3))
     st3 = {1: 1, 2: 9, 3: 97} if tier != 'quick' else {1: 3, 2: 37, 3: 397}
     n3 = [[li, L] for L in (1, 2, 3) for li in range(0, len(dom.commuting_lists(3, L)), st3[L])]
     out.append(Leg('expect_N3', fn_n3, n3, chunk=4, exhaustive=False, supplementary=True, bound='N=3 states (ranks 2,1,0) from commuting lists: every %dth L=1, %dth L=2, %dth L=3 x complete signed list + imaginary-phase Paulis' % (st3[1], st3[2], st3[3])))
